@@ -168,6 +168,11 @@ func editScenarios(ctx *core.Ctx, r *gen.Rng, count int, opts tree.GenOpts, stra
 		for k := 0; k < 3; k++ {
 			src := tree.Subsample(dr, root, universe, 30+dr.Intn(70), 30)
 			tgt := tree.Subsample(dr, root, universe, dr.Intn(100), 30)
+			if k > 0 {
+				// overlay: the source addresses existing entries (sparsely) and new ones, in its own order
+				tgt = tree.Subsample(dr, root, universe, 60+dr.Intn(40), 20)
+				src = tree.GenDataAgainst(dr, root, 35+dr.Intn(40), 2, tgt)
+			}
 			if dr.Chance(1, 8) {
 				tgt = tree.NewCont()
 			}
@@ -293,7 +298,31 @@ func C03(ctx *core.Ctx) error {
 	opts := tree.GenOpts{MaxDepth: 3, MaxKids: 4, Lists: true, Defaults: true, LeafLists: true}
 	altSource = r.Fork(77)
 	defer func() { altSource = nil }()
-	return editScenarios(ctx, r, ctx.Scale(60, 1500), opts, []int{0, 0, 1, 2})
+	if err := editScenarios(ctx, r, ctx.Scale(45, 1200), opts, []int{0, 0, 1, 2}); err != nil {
+		return err
+	}
+	// list-centred stream: small schemas, many rows, sources that address existing entries sparsely
+	// and new entries in an order of their own
+	lopts := tree.GenOpts{MaxDepth: 2, MaxKids: 3, Lists: true, Defaults: true, ListHeavy: true, Types: []string{"int32", "string", "boolean", "uint8"}}
+	lr := r.Fork(4242)
+	for n := 0; n < ctx.Scale(40, 800); n++ {
+		yang, m, root, err := tree.GenSchema(lr.Fork(uint64(n)), lopts)
+		if err != nil {
+			return fmt.Errorf("generated schema does not load: %v\n%s", err, yang)
+		}
+		dr := lr.Fork(uint64(3000 + n))
+		for k := 0; k < 2; k++ {
+			tgt := tree.GenData(dr, root, 85, 4)
+			src := tree.GenDataAgainst(dr, root, 30+dr.Intn(50), 3, tgt)
+			st := gen.Pick(dr, []int{0, 0, 0, 2})
+			e := pickEntry(dr, root, src, tgt)
+			if err := runEdit(ctx, m, root, yang, src, tgt, e, st, dr.Bool()); err != nil {
+				return err
+			}
+			ctx.Count("stream:list-overlay")
+		}
+	}
+	return nil
 }
 
 func init() { Registry["C09"] = C09 }
